@@ -34,6 +34,26 @@ def main():
         names = {t.split(":", 1)[1].replace("self.", "") for t in tables if t.split(":", 1)[0] == c.qual}
         attr_profiles[c.qual] = {n: _use_profile(repo, c, n, True) for n in sorted(names) if n.startswith("_") and not n.startswith("__")}
     global_order = {m.name: list(m.assigns) for m in repo.modules.values()}
+    # who calls each private helper (by name, within the defining module): when a later change inlines the
+    # helper into its caller(s) and removes it, the rules anchored on the helper look at the host instead
+    callers = {}
+    for m in repo.modules.values():
+        priv = {}
+        for fi in m.all_funcs():
+            if fi.name.startswith("_") and not fi.name.startswith("__") or fi.parent is not None:
+                priv.setdefault(fi.name, []).append(fi)
+        for fi in m.all_funcs():
+            for c in ast.walk(fi.node):
+                if isinstance(c, ast.Call):
+                    nm = c.func.attr if isinstance(c.func, ast.Attribute) else (c.func.id if isinstance(c.func, ast.Name) else None)
+                    for callee in priv.get(nm, []):
+                        if callee is not fi and (callee.parent is None or callee.parent is fi):
+                            host = fi
+                            while host.parent is not None and host is not callee.parent:
+                                host = host.parent
+                            callers.setdefault(callee.qual, [])
+                            if host.qual not in callers[callee.qual]:
+                                callers[callee.qual].append(host.qual)
     out = {
         "_doc": "functions, classes and shared tables of the reference tree, with the anonymised shape of every definition "
                 "(used only to map renamed private names back and to tell which helpers / tables are new; see tools/gen_inventory.py)",
@@ -44,6 +64,7 @@ def main():
         "class_shapes": class_shapes,
         "attr_profiles": attr_profiles,
         "global_order": global_order,
+        "callers": callers,
     }
     p = os.path.join(os.path.dirname(os.path.dirname(os.path.abspath(__file__))), "sa", "inventory.json")
     with open(p, "w") as f:
